@@ -1,7 +1,9 @@
 """flex -> cc -> run pipeline for harness scanners, with classification of every way a
 step can end (never folding harness failures into verdicts)."""
 import os, re, shutil
-from . import util, emit, model
+from . import util, emit, model, scov
+
+scov.install()
 
 HARNESS = os.path.join(util.VERIF, "vf", "harness")
 
@@ -77,7 +79,7 @@ def build_scanner(flex, case, flavour, outdir, flexargs=(), ccvariant="san", rng
         return b
     exe = os.path.join(outdir, name + ".exe")
     cc = ["g++" if cxx else "gcc"] + CC_VARIANTS[ccvariant] + [
-        "-w", "-I", HARNESS, "-I", flex.include] + list(extra_cflags) + ["-o", exe, out]
+        "-w", "-I", HARNESS, "-I", flex.include] + list(extra_cflags) + scov.cflags() + ["-o", exe, out]
     if ccvariant == "tsan":
         cc.append("-lpthread")
     b.cccmd = cc
